@@ -28,6 +28,7 @@ pub struct TrainStateTag;
 pub struct SpeedLimitTrainSimTag;
 pub struct SetSpeedTrainSimTag;
 pub struct StrapTag;
+pub struct TrainConfigTag;
 
 pub fn f(v: &Value) -> f64 {
     v.as_f64().unwrap_or(f64::NAN)
@@ -287,6 +288,7 @@ pub fn dispatch(line: &str) -> String {
         "SetSpeedTrainSim" => <SetSpeedTrainSimTag as FileEntry>::call(&req),
         "TrainState" => <TrainStateTag as FileEntry>::call(&req),
         "BrakingPoints" => <BrakingPointTag as FileEntry>::call(&req),
+        "TrainSimBuilder" => <TrainConfigTag as FileEntry>::call(&req),
         "SpeedLimitTrainSim" => <SpeedLimitTrainSimTag as FileEntry>::call(&req),
         "<free>" => run_free(&req),
         "Vec<link_impl::Link>" => run::<Vec<crate::track::Link>>(&req, call_links),
